@@ -137,6 +137,8 @@ def sort_of_type(t):
         return ("bool",)
     if t in INT_W:
         return ("bv", INT_W[t], t.startswith("i"))
+    if t in ("f32", "f64"):
+        return ("bv", 32 if t == "f32" else 64, False)      # floats are opaque bit patterns: moved around, never computed with
     return None
 
 
@@ -540,6 +542,13 @@ class Executor:
         m = re.match(r"^(.+?)::(\w+)$", t) if "(" not in t and "{" not in t else None
         if m and self.enum_table(m.group(1)) and m.group(2) in self.enum_table(m.group(1)):
             return ("enum", m.group(1), self.enum_table(m.group(1)).index(m.group(2)))
+        m = re.match(r"^(-?[\d.]+(?:[eE][-+]?\d+)?)(f32|f64)$", t)
+        if m:
+            # a float literal: an uninterpreted constant of its width (the same literal is the same constant)
+            srt = ("bv", 32 if m.group(2) == "f32" else 64, False)
+            name = "|fconst:%s|" % t
+            self.decls[name] = srt
+            return Val(name, srt)
         m = re.match(r"^(?:std::|core::)?([iu](?:8|16|32|64|128|size))::(MAX|MIN)$", t)
         if m:
             srt = sort_of_type(m.group(1))
